@@ -47,6 +47,7 @@ def plan(tier, seed):
     for i in range(nn):
         specs.append({"kind": "numsoup", "maxlen": 5 if tier == "quick" else 6, "part": i, "of": nn})
     specs.append({"kind": "nest"})
+    specs.append({"kind": "shift"})
     for hs in ([1, 2] if tier == "quick" else [1, 2, 3, 4]):
         specs.append({"kind": "xproc", "hashseed": hs, "n": 1500})
     return specs
@@ -190,6 +191,10 @@ def check_text(ctx, text, deep=True):
                           "syntax error for %r is malformed: %s" % (text, bad),
                           {"text": text})
         summary = ("syntax", getattr(getattr(o.exc, "pos", None), "line", None))
+        # the position is one of this text (a text of n lines has no line n + 2)
+        if isinstance(summary[1], int) and summary[1] > len(text.splitlines()) + 1 + text.count("\r"):
+            ctx.violation("C01:position-outside-text", "syntax error for %r is reported in line %d of a text of %d lines" % (text, summary[1], len(text.splitlines())),
+                          {"text": text})
     elif o.kind == "rte":
         site = core.innermost_ckl_frame(o.exc)
         ctx.violation("C01:runtime-error-from-parser:%s" % site[0],
@@ -405,6 +410,28 @@ def run_shard(spec, ctx):
                          "#" + "c" * n + "\n1", "'" + "\\x41" * n + "'", " " * n + "1", "\n" * n + "1", "[" + "1, " * n + "1]", ";" * n):
                 check_text(ctx, text, deep=False)
                 ctx.count("long_token_texts")
+    elif kind == "shift":
+        # the same text further down: a malformed text reports its error as many lines lower as it was moved, whatever
+        # was parsed before it (the far position first, so that nothing remembered from it fits the nearer ones)
+        from cklgen import syntax as syn
+        bad = [t for t in syn.LITERALS + ["def", "f(", "a is", "1 +", "if then", "[1, ", "<<<1 =>", "do 1 catch", "for x in", "x[", "def class X do 1 end", "fn(", "1 )", "]",
+                                           "x = //(a//", "f(//[//)", "[//*//]", "1 + 0x", "s('\\xZZ')", "a->", "x !>", "require", "<*a = *>", "def f(a, a...) 1"]]
+        for t in bad:
+            lines = {}
+            for k in (7, 0, 2, 7, 1):
+                sm = check_text(ctx, "\n" * k + t, deep=False)
+                ctx.count("shift_parses")
+                if sm[0] != "syntax":
+                    break
+                if k in lines and lines[k] != sm[1]:
+                    ctx.violation("C01:nondeterministic-same-process", "two parses of %r report line %r and %r" % ("\n" * k + t, lines[k], sm[1]), {"text": "\n" * k + t})
+                lines[k] = sm[1]
+            if len(lines) > 1 and None not in lines.values():
+                base = lines[0] if 0 in lines else None
+                for k, ln in lines.items():
+                    if base is not None and ln != base + k:
+                        ctx.violation("C01:position-does-not-move-with-text", "%r is reported in line %d, the same text %d lines lower in line %d" % (t, base, k, ln), {"text": "\n" * k + t})
+                        break
     elif kind == "xproc":
         # same seeded batch in every xproc shard (rng independent of shard index)
         rr = core.make_rng(ctx.seed, "C01-xproc", 0)
